@@ -9,7 +9,7 @@ SITES = [("asmjit/x86/x86assembler.cpp", r"x86::Assembler::_emit$"), ("asmjit/ar
 
 
 def run(chk):
-    f = chk.facts(UNIT, funcs=r"asmjit::CodeHolder::(relocate_to_base|new_reloc_entry)$|asmjit::CodeHolder_evaluate_expression$|asmjit::x86_[A-Za-z0-9_]+$",
+    f = chk.facts(UNIT, funcs=r"asmjit::CodeHolder::(relocate_to_base|new_reloc_entry)$|asmjit::[A-Za-z0-9_]+$",
                   enums=r"asmjit::RelocType$|asmjit::ExpressionOpType$|asmjit::ExpressionValueType$")
     rb = cfg.find_fn(f, "CodeHolder::relocate_to_base")
 
@@ -107,8 +107,8 @@ def run(chk):
     chk.rule(R3, "the bytes tested by the kX64AddressEntry rewrite (E8, E9) are the rel32 opcodes of call/jmp in the dumped x86 tables and in "
                  "db/isa_x86.json, and the replacement ModRM bytes are FF /2 and FF /4 with mod=00 rm=101")
     # the rewrite may live in relocate_to_base or in a static x86_* helper it calls
-    rewrite_fns = [rb] + [cfg.Fn(fo) for fo in f["functions"] if fo["name"].startswith("asmjit::x86_") and
-                          any(x.get("callee") == fo["name"] for i, x in rb.calls())]
+    unit_fns = [cfg.Fn(fo) for fo in f["functions"] if fo["file"].endswith("codeholder.cpp")]
+    rewrite_fns = cfg.callee_closure(rb, unit_fns)
     consts = set()
     for g in rewrite_fns:
         # the opcode byte that is inspected: a local loaded from the code buffer just before the displacement
@@ -118,6 +118,10 @@ def run(chk):
                 l = g.e(g.strip(x["lhs"]))
                 if r is not None and "cv" in r and r["cv"] in range(0x80, 0x100) and l is not None and l["k"] == "ref" and "uint" in l.get("ty", ""):
                     consts.add(r["cv"])
+            elif x["k"] == "s:SwitchStmt" and "uint" in (x.get("cond_ty") or "") + (g.e(g.strip(x.get("cond", 0))) or {}).get("ty", ""):
+                for c in x.get("cases", []):
+                    if isinstance(c.get("v"), int) and c["v"] in range(0x80, 0x100):
+                        consts.add(c["v"])
     chk.ob(R3, "tested-bytes", consts == {0xE8, 0xE9}, loc=UNIT, detail="rewrite tests bytes %s, expected E8 (call rel32) and E9 (jmp rel32)" % sorted(hex(c) for c in consts))
     mods = []
     for g in rewrite_fns:
@@ -226,7 +230,7 @@ def run(chk):
     relocrules.payload_live(chk, emitters)
     relocrules.src_address(chk, rb, floor=1)
     relocrules.target_section_used(chk, rb)
-    relocrules.written_buffer_sized(chk, rb)
+    relocrules.written_buffer_sized(chk, rb, unit_fns)
     fbl = chk.facts(UNIT, funcs=r"asmjit::CodeHolder::bind_label$")
     relocrules.bind_label_sections(chk, cfg.find_fn(fbl, "CodeHolder::bind_label"))
 
